@@ -211,7 +211,14 @@ fn build_by_setters(r: &mut Rng, pm: PMType, lp: f64, ls: f64, ths: f64, phs: f6
   let l0 = ls * r.range(0.7, 1.4);
   let sp = pm.signal_polarization();
   let mk = |pol, ph: f64, th: f64, l: f64, w: f64| -> SignalBeam { Beam::new(pol, ph * RAD, th * RAD, l * M, w * M).into() };
-  match r.below(14) {
+  match r.below(15) {
+    14 => {
+      // the conversion Beam -> PumpBeam: whatever it does with the angles of a tilted beam, the clauses are checked
+      // against the pump's direction as the resulting object reports it (kp along `phi()`, `theta_internal()`)
+      let b = Beam::new(pm.pump_polarization(), phi0 * RAD, th0 * RAD, lp * M, waist * M);
+      *pump = if r.coin() { b.into() } else { PumpBeam::from(b) };
+      "pump:new-tilted.into()"
+    }
     0 => {
       *signal = mk(sp, phi0, ths, ls, waist);
       signal.set_phi(phs * RAD);
